@@ -156,6 +156,11 @@ def main(argv=None):
                 raise
             if got is not None and len(core.canon(got[0])) <= len(core.canon(spec)):
                 spec, msg = got
+            if got is None or len(core.canon(spec)) > 4000:
+                # the seeded search did not get (far) within its budget: reduce the recorded spec directly
+                red = core.reduce_spec(prop, spec, bucket, budget_s)
+                if red is not None and len(core.canon(red[0])) < len(core.canon(spec)):
+                    spec, msg = red
         violations.append((bucket, spec, msg, b.get("seed")))
 
     wall = time.time() - t0
